@@ -110,6 +110,9 @@ pub mod interning;
 mod serde_impls;
 #[allow(missing_docs)]
 mod utility_types;
+#[cfg(cstree_verif)]
+#[doc(hidden)]
+pub mod verif;
 
 use std::fmt;
 
